@@ -22,7 +22,8 @@ RULE = (
     "For every public constructor/method of Led, RGBLed, Buzzer, Servo, DCMotor, LCD, Button, Potentiometer, Ultrasonic, "
     "SerialMonitor and the five Core helpers, every positional/keyword split the signature admits, every subset of omitted "
     "defaults and every keyword order (all permutations up to 4 keywords, 24 sampled beyond) is generated with distinct "
-    "sentinel values per parameter; shapes the host class rejects when actually called are dropped. Oracle: Python's "
+    "sentinel values per parameter, in up to six spellings of the same call (`k=v`, `k = v`, `k =v`, tabs, padded parentheses) and with one supplied argument "
+    "at the falsy value of its type (0, 0.0, False: supplied-and-zero is not not-supplied); shapes the host class rejects when actually called are dropped. Oracle: Python's "
     "binder (bind + apply_defaults) vs the IR node fields, and byte-identical C++ among accepted shapes with equal bound "
     "arguments. Non-trivial = shape with >=1 keyword argument or >=1 omitted default. The random part additionally renders "
     "arguments as run-time variables. distinct = distinct call text."
